@@ -93,11 +93,13 @@ void setupRoutes(Rest::Router& router)
 struct Server {
     std::unique_ptr<Http::Endpoint> ep; uint16_t port = 0; std::shared_ptr<Rest::Private::RouterHandler> handler;
     size_t tables() const { return handler->router->routes.size(); }
-    void start(int workers)
+    void start(int workers, bool customNotFound = false)
     {
         ep.reset(new Http::Endpoint(Address("127.0.0.1", Port(0))));
         ep->init(Http::Endpoint::options().threads(workers).flags(Tcp::Options::ReuseAddr));
         Rest::Router router; setupRoutes(router);
+        if (customNotFound)
+            router.addNotFoundHandler([](const Rest::Request&, Http::ResponseWriter response) { response.send(Http::Code::Not_Found, "custom-nf"); return Rest::Route::Result::Ok; });
         handler = router.handler();
         ep->setHandler(handler);
         ep->serveThreaded();
@@ -130,6 +132,19 @@ std::string opRoute(const std::vector<std::string>& w)
     if (w.size() != 3) return "bad-op";
     std::string path; if (!fromHex(w[2], path)) return "bad-op";
     static Server srv; if (!srv.ep) srv.start(1);
+    int fd = connectTo(srv.port); if (fd < 0) return "connect-failed";
+    sendAll(fd, w[1] + " " + path + " HTTP/1.1\r\nHost: h\r\n\r\n");
+    std::string buf; std::string r = readOne(fd, buf, 500);
+    ::close(fd);
+    return statusAndBody(r) + " tables=" + std::to_string(srv.tables());
+}
+
+// routenf: the same routes on a router that also has a custom not-found handler (it must not pre-empt the 405 answer)
+std::string opRouteNf(const std::vector<std::string>& w)
+{
+    if (w.size() != 3) return "bad-op";
+    std::string path; if (!fromHex(w[2], path)) return "bad-op";
+    static Server srv; if (!srv.ep) srv.start(1, true);
     int fd = connectTo(srv.port); if (fd < 0) return "connect-failed";
     sendAll(fd, w[1] + " " + path + " HTTP/1.1\r\nHost: h\r\n\r\n");
     std::string buf; std::string r = readOne(fd, buf, 500);
@@ -225,6 +240,7 @@ int main()
     signal(SIGPIPE, SIG_IGN);
     std::map<std::string, Op> ops;
     ops["route"] = opRoute;
+    ops["routenf"] = opRouteNf;
     ops["mt"] = opMt;
     return runLoop(ops, 60);
 }
